@@ -2,7 +2,7 @@
 # Sensitivity of the checks: re-introduce each repaired defect (reverse of its fix: commit) and
 # apply every kept seeded change (/verif/seeded/*/patch.diff) to /repo's working tree, run the
 # quick checks of the listed properties, undo, and print a table. /repo is left clean.
-# usage: ./sensitivity.sh [fixes|seeded|all] [property ...]
+# usage: ./sensitivity.sh [fixes|seeded|seeded-own|all] [property ...]   (SENS_CLONE=1: work on a private clone)
 set -u
 cd "$(dirname "$0")"
 what="${1:-all}"; shift || true
@@ -34,6 +34,19 @@ if [ "$what" = fixes ] || [ "$what" = all ]; then
             echo "revert $c $subj | (does not apply in reverse on top of later fixes)"
         fi
         git -C "$REPO" checkout -- . 
+    done
+fi
+if [ "$what" = seeded-own ]; then
+    # each seeded change against the check of the property it targets only
+    for d in seeded/*/; do
+        [ -f "$d/patch.diff" ] || continue
+        own="$(basename $d | cut -d- -f1)"
+        if git -C "$REPO" apply "$PWD/$d/patch.diff" 2>/dev/null; then
+            props="$own" run_checks "seeded $(basename $d)"
+        else
+            echo "seeded $(basename $d) | (patch does not apply)"
+        fi
+        git -C "$REPO" checkout -- .
     done
 fi
 if [ "$what" = seeded ] || [ "$what" = all ]; then
